@@ -7828,7 +7828,9 @@ class TensorDictBase(MutableMapping):
         out = self._fast_apply(
             unflatten, batch_size=batch_size, propagate_lock=True, call_on_nested=True
         )
-        if self._has_names():
+        if self._has_names() and any(name is not None for name in self.names):
+            # (a names list that only holds None names nothing: assigning it would erase
+            # the dim names of the nested tensordicts, which keep theirs)
             names = copy(self.names)
             for _ in range(len(unflattened_size) - 1):
                 names.insert(dim, None)
